@@ -333,6 +333,16 @@ func (w *world) lookup(t *inst, p string, how string) {
 	if w.guard(fmt.Sprintf("GetNodeValueRaw(%q)", p), func() { got, err = m.GetNodeValueRaw(util.Path(p)) }) {
 		return
 	}
+	if w.s.Scribble && err == nil && len(got) > 0 {
+		// a caller that edits the bytes a lookup handed out (they are a copy today) must not change the trie:
+		// done after this lookup has been judged, every later observation still has to equal the model
+		defer func() {
+			for i := range got {
+				got[i] ^= 0x5a
+			}
+			w.stats.Inc("fault.scribble-on-returned-value")
+		}()
+	}
 	relaxed := t.degraded || w.faultHit()
 	if w.faultHit() {
 		w.stats.Inc("fault.any")
